@@ -60,6 +60,10 @@ Inductive case :=
 (* the metas payload handed to StoreDocuments by the real ingest path (marshalAppendMeta per meta),
    and the metas the real UnmarshalBinary reads from it *)
 | CMetaPayload (payload : list N) (ms : list meta)
+(* a history of requests on one ingestor: some of them overlap (one is held inside StoreDocuments
+   while others are processed completely); every component is the observation of one request, its
+   payload read when ITS StoreDocuments call returns *)
+| CHist (l : list case)
 | CBulk (eager : bool) (B : nat) (now drift fdrift : Z) (body : list N) (tbl : list (list N * docinfo)) (r : impl).
 
 Definition stored_eqb (a b : list N * (Z * nat)) : bool :=
@@ -69,8 +73,9 @@ Definition info_of (tbl : list (list N * docinfo)) (d : list N) : docinfo :=
   match lookup tbl d with Some i => i | None => {| d_cls := Invalid; d_fields := []; d_intended := None |} end.
 
 (* model output = implementation output *)
-Definition case_agrees (c : case) : bool :=
+Definition case_agrees1 (c : case) : bool :=
   match c with
+  | CHist _ => true
   | CMeta m bytes un => bytes_eqb (marshal_meta m) bytes && uclass_eqb (unmarshal_meta bytes) un
   | CMetaBytes b un => uclass_eqb (unmarshal_meta b) un
   | CMetaPayload payload ms =>
@@ -94,8 +99,14 @@ Definition case_agrees (c : case) : bool :=
 
 (* implementation output satisfies the property (independent of the model's reader and of its
    time parsing: the expected instant is the one the generator rendered into the document) *)
-Definition case_spec_ok (c : case) : bool :=
+(* a request's outcome and payload are a function of its own body only: in a history every
+   request is judged exactly like a lone request *)
+Definition case_agrees (c : case) : bool :=
+  match c with CHist l => forallb case_agrees1 l | _ => case_agrees1 c end.
+
+Definition case_spec_ok1 (c : case) : bool :=
   match c with
+  | CHist _ => true
   | CMeta m _ un => match un with KOk m' => meta_eqb m m' | _ => false end    (* what was written is read back *)
   | CMetaBytes _ _ => true
   | CMetaPayload _ _ => true
@@ -109,6 +120,9 @@ Definition case_spec_ok (c : case) : bool :=
       | _ => negb (i_ok r) && Nat.eqb (i_calls r) 0 && match i_stored r with [] => true | _ => false end
       end
   end.
+
+Definition case_spec_ok (c : case) : bool :=
+  match c with CHist l => forallb case_spec_ok1 l | _ => case_spec_ok1 c end.
 
 Definition diff_indices (l : list case) : list nat := bad_indices (fun c => negb (case_agrees c)) l.
 Definition specfail_indices (l : list case) : list nat := bad_indices (fun c => negb (case_spec_ok c)) l.
